@@ -36,7 +36,7 @@ COMPONENTS = {
     "real": ["pulser HamiltonianData noise-trajectory sampling", "PulserData.get_sequences (reps expansion)", "MPSBackend.run / SVBackend.run", "Results.aggregate", "both solvers' numerics"],
     "stubbed": ["numpy / random / torch RNG seeding", "clock", "uuid", "minimize_bandwidth (scheduler-chosen permutation)"],
 }
-PROBES = ["n_ge_2", "n_ge_10", "shot_to_shot_noise", "trajectory_invariant_noise", "reps_grouped", "dark_atoms_in_some_trajectory", "n_equals_1", "lindblad_plus_shot_to_shot", "isolation_rerun_done"]
+PROBES = ["second_run_on_same_backend_object", "n_ge_2", "n_ge_10", "shot_to_shot_noise", "trajectory_invariant_noise", "reps_grouped", "dark_atoms_in_some_trajectory", "n_equals_1", "lindblad_plus_shot_to_shot", "isolation_rerun_done"]
 ASSUMPTIONS = [
     "the re-simulation of a recorded trajectory uses the RNG state captured at its entry, so jumps, bit-string samples and readout flips are reproduced exactly",
     "aggregation semantics are Pulser's (mean / bag union); tags Pulser marks SKIP/SKIP_WARN (statistics, state, energy_variance) are not compared",
@@ -138,8 +138,19 @@ def run_one(tape: Tape, tier: str, opts: dict) -> dict:
 
             B = emu_mps.MPSBackend if backend == "mps" else emu_sv.SVBackend
             fn.config = S.make_config(scn, cfg)  # type: ignore[attr-defined]
-            return B(seq, config=fn.config).run()  # type: ignore[attr-defined]
+            backend_obj = B(seq, config=fn.config)  # type: ignore[attr-defined]
+            if not twice:
+                return backend_obj.run()
+            # a multi-step history: run() twice on the SAME backend object under the same RNG state; the second call
+            # must stand on its own (exactly n_trajectories simulations, same aggregate)
+            rng0 = rng_snapshot()
+            fn.first = R.canon_results(backend_obj.run())  # type: ignore[attr-defined]
+            history.clear()
+            first.clear()
+            rng_restore(rng0)
+            return backend_obj.run()
 
+        twice = tape.bool(0.3, "run_twice_on_same_backend")
         world.clock.policy = lambda n: 0.003
         out = M.run_incarnation(world, fn, seeds=seeds, perm_chooser=C.perm_chooser(case) if backend == "mps" else None, setup=setup)
         evals = 1
@@ -151,6 +162,11 @@ def run_one(tape: Tape, tier: str, opts: dict) -> dict:
         if n_rec != ntraj:
             V.append({"clause": "C34.trajectory-count", "site": backend, "msg": f"{n_rec} trajectories were simulated for n_trajectories = {ntraj} :: {desc}"})
         distinct_data = len({h["data_id"] for h in history})
+        if twice:
+            probes["second_run_on_same_backend_object"] = 1
+            d = R.compare(fn.first, agg, tol=1e-12)  # type: ignore[attr-defined]
+            if d:
+                V.append({"clause": "C34.second-run-differs", "site": backend, "msg": f"calling run() a second time on the same backend object (same RNG state) gives a different aggregate than the first call: {d[:3]} :: {desc}"})
         # ---- aggregation oracle
         method_by_tag = {}
         for o in fn.config.observables:  # type: ignore[attr-defined]
